@@ -56,9 +56,11 @@ def hierarchies(tier):
         if shape in ("spec_sub", "spec_sub_plain", "spec_sub_sub"):
             # how the spec subclass treats the inherited attribute `b` (default above: re-declares it) and whether the
             # subclass changes the copy policy (both make the library rebuild the inherited attribute specification)
-            for sub_b, sub_dnc in (("redefault", False), ("untouched", False), ("untouched", True), ("redefault", True)):
+            for sub_b, sub_dnc in (("redefault", False), ("untouched", False), ("untouched", True), ("redefault", True), ("reannotate", False)):
                 if tier == "quick" and (key == "default" or (overflow and sub_dnc)):
                     continue
+                if sub_b == "reannotate" and noinit:
+                    continue  # (whether a bare re-annotation keeps init=False is not stated)
                 out.append({"shape": shape, "ctor": ctor, "key": key, "overflow": overflow, "noinit": noinit, "factory": factory,
                             "sub_b": sub_b, "sub_dnc": sub_dnc})
     return out
@@ -86,6 +88,8 @@ def classes_of(h):
             cls[-1]["decl"]["b"] = {"ann": False, "default": 12, "init": True}  # plain `b = 12`: Base stays the owner, flags are inherited
         elif h.get("sub_b") == "untouched":
             del cls[-1]["decl"]["b"]
+        elif h.get("sub_b") == "reannotate":
+            cls[-1]["decl"]["b"] = {"ann": True, "default": None, "init": True}  # bare `b: int`: the nearest default along the MRO is still Base's
         cls[-1]["do_not_copy"] = bool(h.get("sub_dnc"))
     if sh == "plain_sub":
         cls.append({"name": "Plain", "bases": ["Base"], "spec": False, "decl": {"b": {"ann": False, "default": 22, "init": True}}})
@@ -221,10 +225,8 @@ def refinit(h, final, kwargs, positional_key):
     def nearest_default(a):
         for n in order:
             d = by[n]["decl"].get(a)
-            if n == owner.get(a):
-                dv = d["default"] if d else None
-                return dv[1] if isinstance(dv, tuple) else dv
-            if d is not None:
+            # (a bare annotation declares no default of its own: the nearest default further up the MRO still applies)
+            if d is not None and d["default"] is not None:
                 dv = d["default"]
                 return dv[1] if isinstance(dv, tuple) else dv
         return None
